@@ -1437,6 +1437,19 @@ func runC03() {
 		if *tier != "thorough" && len(nested) > 40 {
 			nested = nested[:40]
 		}
+		// the same shape ILL-typed: the outer element (an int) used as a string AFTER an inner builtin over
+		// strings, and the inner element (a string) used as an int; every inner builtin
+		for _, inner := range bs {
+			in := fmt.Sprintf(`%s(AS, {# == "a"})`, inner)
+			switch inner {
+			case "count":
+				in += " >= 0"
+			case "filter", "map":
+				in = "len(" + in + ") >= 0"
+			}
+			nested = append(nested, fmt.Sprintf(`all(AI, {%s and # startsWith "a"})`, in), fmt.Sprintf(`map(AI, {%s ? # + "x" : "y"})`, in),
+				fmt.Sprintf(`filter(AI, {# > 0 and %s and # matches "^a"})`, in))
+		}
 		for _, s := range nested {
 			it := item{src: s, w: wU, fam: "nested builtins"}
 			if push(it) {
